@@ -12,6 +12,12 @@ TB = ("Trusted: Coq 8.16.1 kernel (vm_compute for finite sweeps/examples, no nat
 
 CLAIMS = {
  # id: (level text, technique, design_ref)
+ 'C10': ("PARTIAL by nature (runtime behaviour is not modelled): theorems (Rocq) that the model never returns an error value - ErrStuck where the code would index with EMPTY_REF, ErrPool for popping an empty free list, ErrHandle, ErrIndex, ErrFuel for an exhausted loop measure - on any valid history of the map/set trees, the expiring-key tree (lazy expiry included), the map/set lists, and that every slot linked into a tree or on its free list lies in 1..buffer length-1; removal from a valid red-black tree never needs a missing sibling or nephew. The runtime half is decided on the real code: every history of this check runs in a debug build (overflow checks, debug assertions, library unsafe-precondition checks on get_unchecked) and a release build, each history in its own watchdog-guarded thread, the process restarted after an abort; a panic, abort, crash, hang or an out-of-bounds / sentinel / cyclic link in the snapshot is a failing input.",
+         "Rocq totality theorems over the model's error values + debug/release execution of all histories under a watchdog", "6 C10"),
+ 'C11': ("Theorems (Rocq): in every reachable state of the map/set trees and of the expiring-key tree (slots freed by lazy expiry included) the tree's slots and the free list are duplicate-free together and are exactly the slots 1..blen-1 (slot 0, the sentinel, in neither); clear returns every slot (free list = permutation of 1..blen-1, buffer length unchanged); the number of slots ever allocated is at most 3*(peak population+1)+max(hint,8) for every valid map/set history of any length (peak computed on the reference semantics), via two pool-step lemmas shared by all three trees. For the expiring-key tree the bound itself is checked on the real code after every operation (peak = physically stored entries). Tie: exact slot numbers, free-list order, buffer length and free-list capacity of the three real trees compared with the model after every operation, capacity hints 0/1/8/9/20/64/300, long churn.",
+         "Rocq invariant proof (slot partition, pool growth bound by induction over histories) + slot-exact correspondence run", "6 C11"),
+ 'C18': ("PARTIAL by nature (unwinding is runtime behaviour). Theorems (Rocq): expiring-key tree - at every callback event (expiration(), key comparison, comparator closure) of every operation from any related state, the state handed over satisfies the full representation invariant and is related to the same bag (contents = those before the operation); expiring-key list - a panic at any position of the purge leaves a buffer that still refines the same bag. Map, set, list binary searches and the segment iterator have no modelled mid-operation callbacks: for them and for the runtime half the property is decided by the injection run on the real code: a panic injected at EVERY callback invocation index of every generated history on all seven collections, state snapshotted after catch_unwind, checked structurally (red-black, order, links, slot partition), against the before/after contents, against the model's event states, and used further.",
+         "Rocq theorems over the model's callback-event states + exhaustive panic injection per callback index on the real code", "6 C18"),
  'C01': ("Theorem (Rocq, all valid histories of any length, all capacity hints): the expiring-key tree model - including lazy expiry, i.e. physical deletion and rebalancing of expired entries while a search holds a slot - runs every valid history to completion and every first_less / first_less_or_equal / first_less_or_equal_by answer equals the reference answer over exactly the entries with expiration > t (for comparators: monotone with at most one live Equal key); the search-loop theorem is proved from ANY state satisfying the invariant. Tie to code: answers and full state of the real KeyExpTree compared with the extracted model and reference semantics after every operation; exhaustive closure over 3 keys x expirations time+{0,1,2} x clock 0..3 with every operation from every reachable state.",
          "Rocq proof (loop invariant of the lazy-expiry search under deletions around the held node; refinement to the bag semantics) + correspondence run", "6 C01, 13.5"),
  'C06': ("Same refinement theorem as C01 for get_value (output = ref_get of the bag: value of the entry with key k and expiration > t, else None), plus the one-step form from any related state. Tie: G operations on the real tree for stored / expired / absent keys at every clock value of the exhaustive closure and random histories.",
